@@ -253,7 +253,7 @@ def main(tier: str, seed: int) -> int:
     wd = core.work_dir()
     cases = []
     for i, h in enumerate(hs):
-        cases.append({"runs": h, "rng_seed": f"{seed}-{i}", "time_buffer": rng.choice([0, 1, 2]),
+        cases.append({"runs": h, "rng_seed": f"{seed}-{i}", "time_buffer": (i + 2 * (i // 8) + seed) % 3,   # every flag set meets every buffer
                       "batch_size": rng.choice([1, 2, 3, 1000]), "n_traces": rng.randint(6, 14),
                       "work_dir": wd, "_wall_limit": 1500})
     # two histories on a data set larger than the default batch size (1000 spans per flush)
